@@ -56,6 +56,9 @@ def judge(events, outs):
         if cls in ("skipped", "catalogue-error", "crashed"):
             continue
 
+        for b in out.get("documents_altered") or []:
+            V.append(_v("C01", f"C01/{flabel(b.get('fam'), b.get('profile'))}/{kind.lower()}/stored-document-altered-later:"
+                               f"{'+'.join(b['paths']) or 'document'}", ev, {"doc": b["doc"]}))
         for c in out.get("collateral") or []:
             by = "same-object-call" if c.get("own") else "other-call"
             V.append(_v("C02", f"C02/{flabel(c['fam'], c.get('profile'))}/{kind.lower()}/collateral-alters-{c['what']}:"
@@ -214,6 +217,8 @@ def judge(events, outs):
                                 {"got": cls, "original": out["store_ref_class"]}))
                 elif out.get("store_ref_diff"):
                     V.append(_v("C01", f"C01/{fl}/restored/predict/differs:{_cols(out['store_ref_diff'])}", ev))
+            if out.get("live_original_diff"):
+                V.append(_v("C01", f"C01/{fl}/restored/predict/differs-from-live-original:{_cols(out['live_original_diff'])}", ev))
             rd = out.get("reader")
             if rd and rd.get("bad"):
                 V.append(_v("C01", f"C01/{fl}/predict/formula-differs:{'+'.join(rd['bad'])}", ev))
